@@ -166,6 +166,10 @@ def rand_source(rng, W, H, kinds=None):
         t = rand_xf(rng, general=0.5)
         if t[0] * t[3] - t[1] * t[2] == 0:
             t = IDENT
+        if rng.random() < 0.25:
+            # the image's own transform is the identity or an integer translation: whether the shader may take the
+            # integer-offset route must be decided on the COMBINED transform (current transform included)
+            t = rng.choice([IDENT, (1.0, 0.0, 0.0, 1.0, float(rng.randrange(-3, 4)), float(rng.randrange(-3, 4)))])
         return "image %s %s %s %s" % (image_tokens(rng), rng.choice(["pad", "repeat"]), rng.choice(["bilinear", "nearest"]),
                                       xf_tokens(t))
     if k == "linear":
@@ -178,6 +182,10 @@ def rand_source(rng, W, H, kinds=None):
         return (float(rng.randrange(-2, W + 3)), float(rng.randrange(-2, H + 3)))
     if k == "linearc":
         a, b = P(), P()
+        if rng.random() < 0.3:
+            # long or steep gradient vectors: the parameter advances by less than 1/256 per pixel along a row
+            d = rng.choice([(300.0, 0.0), (1000.0, 0.0), (10.0, 100.0), (3.0, 400.0), (1.0, 1000.0), (-500.0, 20.0), (0.0, 300.0)])
+            b = (a[0] + d[0], a[1] + d[1])
         return "linearc %s %s %s %s" % (stops_tokens(rng), sp, fpt(*a), fpt(*b))
     if k == "radialc":
         return "radialc %s %s %s %d" % (stops_tokens(rng), sp, fpt(*P()), FB(float(rng.randrange(1, 12))))
